@@ -45,7 +45,8 @@ FLOORS = {"layout_ok": 300, "pair_disjoint": 2000, "readback": 1500,
           "collision_pairs": 500, "last_bit_used": 20}
 SHARDS = {"quick": 16, "thorough": 64}
 CLASSES = ["auto", "auto_full", "explicit", "mixed", "tags", "reuse", "deep",
-           "interleaved", "crossbranch", "fragment", "reuse_fixed"]
+           "interleaved", "crossbranch", "fragment", "reuse_fixed",
+           "grow_fixed"]
 KF_KEY = "assign-fields-first-fit-fragmentation"
 KF2_KEY = "add-field-cross-level-scope-recursion"
 ANCHORS = [("rig.bitfield", "BitField._assign_field",
@@ -218,6 +219,8 @@ def gen(cls, idx, rng, tier):
         return gen_fragment(rng)
     if cls == "reuse_fixed":
         return gen_reuse_fixed(rng)
+    if cls == "grow_fixed":
+        return gen_grow_fixed(rng)
     sh = Shadow(L)
     ops = []
     explicit_p = {"auto": 0, "auto_full": 0, "explicit": .7, "mixed": .3,
@@ -347,6 +350,44 @@ def gen(cls, idx, rng, tier):
         ops.append(("layout",))
     for _ in range(rng.randint(2, 6)):
         ops.append(("query", complete()))
+    return dict(L=L, ops=ops)
+
+
+def gen_grow_fixed(rng):
+    """Two independent selectors.  Under one of them fixed fields; under the
+    other a field with a fixed START but automatic length whose values make
+    it grow towards (and perhaps into) those fixed fields, which it can be
+    present with.  Either the layout is refused or nothing overlaps."""
+    L = rng.choice([16, 32, 32, 64])
+    ops = [("add", {}, "a", 2, L - 2, None),
+           ("add", {}, "b", 1, L - 3, None)]
+    room = L - 3
+    n_scopes = rng.randint(2, 3)
+    targets = []
+    for v in range(n_scopes):
+        ln = rng.randint(1, max(1, room // 5))
+        st = rng.randint(room // 3, room - ln)
+        targets.append((st, ln))
+        ops.append(("add", {"a": v}, "p%d" % v, ln, st, None))
+    # scopes of the other selector defined afterwards
+    bscope = {"b": rng.randrange(2)}
+    st0, ln0 = rng.choice(targets)
+    gap = rng.randint(1, 4)
+    start = max(0, st0 - gap)
+    ops.append(("add", bscope, "g", None, start, None))
+    if rng.random() < .5:
+        ops.append(("add", {"b": 1 - bscope["b"]}, "h", None, None, None))
+    width = rng.choice([gap - 1, gap, gap + 1, gap + ln0, gap + 2])
+    width = max(1, width)
+    big = (1 << width) - 1
+    for v in rng.sample(range(n_scopes), rng.randint(1, n_scopes)):
+        ops.append(("val", dict(bscope, a=v, g=rng.choice([big, 1, big >> 1]))))
+    ops.append(("val", dict(bscope, g=big)))
+    ops.append(("layout",))
+    for v in range(n_scopes):
+        q = dict(bscope, a=v, g=big)
+        q["p%d" % v] = 0
+        ops.append(("query", q))
     return dict(L=L, ops=ops)
 
 
